@@ -34,5 +34,5 @@ def texts_for(pid, explanation):
 
 
 NOT_APPLICABLE = {}
-for _p in ("C01", "C02", "C03", "C04", "C06", "C07", "C08", "C15", "C17"):
+for _p in ():
     NOT_APPLICABLE[_p] = "framework under construction: rules for this property are not committed yet (temporary entry, will be claimed)"
